@@ -41,6 +41,9 @@ def main(argv):
         if prop == "C16":
             import notarychk
             return notarychk.replay(prop, rp) if rp else notarychk.check(prop, tier)
+        if prop == "C15":
+            import shapeschk
+            return shapeschk.replay(prop, rp) if rp else shapeschk.check(prop, tier)
         if prop == "C08":
             import locks
             return locks.replay(prop, rp) if rp else locks.check(prop, tier)
